@@ -25,7 +25,7 @@ ASSUMPTIONS = ['labelled objects are aligned with parsed nodes by kind and docum
                'NF-10: one label per object, label names over [a-z0-9:-]',
                'a label in the first row of an eqnarray may attach to the eqnarray node itself (same number)']
 DECIDING_HOOKS = ['Context.label', 'Context.ref']
-DECIDING_COUNTERS = {'unnumbered_item_labels': 10, 'references_checked': 100}
+DECIDING_COUNTERS = {'unnumbered_item_labels': 10, 'equal_objects_labelled': 10, 'references_checked': 100}
 
 
 def budget(tier):
@@ -120,9 +120,17 @@ def cases(seed, tier, shard, nshards):
         r = common.rng_for(seed, PROP, i)
         d = docs.gen(r, labels=True, refs=True, eqnarray=True, verbatim=False, boxes=r.random() < 0.3, footnotes=r.random() < 0.5, fonts=r.random() < 0.5,
                      tables=r.random() < 0.3, depth=r.choice([2, 3]), maxsec=r.choice([4, 8]), blocks=(1, 4), term_labels=r.choice([0, 0.5]), wide_labels=r.choice([0, 0, 0.4]))
+        # sometimes two floats that are equal in everything but their label, as the last objects of the document
+        twins = []
+        suffix = ''
+        if r.random() < 0.3:
+            env = r.choice(['figure', 'table'])
+            twins = ['twin:1', 'twin:2'] + (['twin:3'] if r.random() < 0.3 else [])
+            suffix = '\n\n' + ''.join('\\begin{%s}Zq\\caption{Zc same caption}\\label{%s}\\end{%s}\n' % (env, t, env) for t in twins)
         for name, v in variants(d):
             exp, m = CM.numbers(v, 2)
-            yield {'variant': name, 'src': docs.latex(v), 'objects': [[k, n, l] for k, n, l in exp], 'refs': refs_of(v), 'labels': v['labels']}
+            yield {'variant': name, 'src': docs.latex(v, body_suffix=suffix), 'objects': [[k, n, l] for k, n, l in exp], 'refs': refs_of(v), 'labels': v['labels'],
+                   'twins': twins}
 
 
 def collect_nodes(node, out):
@@ -185,6 +193,13 @@ def run(case, st):
     nodes = []
     collect_nodes(doc, nodes)
     objs = case['objects']
+    twin_nodes = []
+    tw = case.get('twins') or []
+    if tw:
+        # the equal floats stand at the very end: take their captions off the aligned list
+        if len(nodes) >= len(tw) and all(k == 'caption' and 'Zc same caption' in str(n.textContent) for k, n in nodes[-len(tw):]):
+            twin_nodes = [n for k, n in nodes[-len(tw):]]
+            nodes = nodes[:-len(tw)]
     if [k for k, n in nodes] != [o[0] for o in objs]:
         st.outcomes['skip:alignment'] += 1
         st.notes['alignment-failed (C07/C08 territory)'] += 1
@@ -214,6 +229,17 @@ def run(case, st):
         got = ctx.labels.get(xl)
         if got is None:
             bad.append(('label-not-registered', 'label %s (in an item with an explicit term) is not registered' % xl))
+        else:
+            ids.append(got.id)
+    for t, n in zip(tw, twin_nodes):
+        st.counters['equal_objects_labelled'] += 1
+        got = ctx.labels.get(t)
+        if got is None:
+            bad.append(('label-not-registered', 'label %s (on one of %d equal floats) is not registered' % (t, len(tw))))
+        elif got is not n:
+            bad.append(('label-on-wrong-object', 'label %s attaches to another of the equal floats (or to %s)' % (t, got.nodeName)))
+        elif got.id != t:
+            bad.append(('label-not-identifier', 'float labelled %s (equal to an earlier labelled float) has id %r' % (t, got.id)))
         else:
             ids.append(got.id)
     if len(set(ids)) != len(ids):
